@@ -29,7 +29,8 @@ class Hist:
 
 
 def run_history(rng, nops, workdir):
-    conn = mockrepo.fresh()
+    conn = mockrepo.fresh_with_namespace_provider() if rng.random() < 0.4 \
+        else mockrepo.fresh()
     h = Hist()
     items, desc = cimcanon.repo_items(conn)
     h.desc.update(desc)
@@ -38,7 +39,9 @@ def run_history(rng, nops, workdir):
     gen = atomicops.Gen(conn, rng, workdir)
     for _ in range(nops):
         scen = gen.scenarios()
-        fam, label, thunk = rng.choice(scen)
+        fams = sorted(set(x[0] for x in scen))
+        pick = rng.choice(fams)
+        fam, label, thunk = rng.choice([x for x in scen if x[0] == pick])
         exc = None
         try:
             thunk()
